@@ -424,7 +424,7 @@ Fixpoint nodup_keys (l : list (nat * nat * N)) : bool :=
   | x :: r => negb (existsb (key_eqb x) r) && nodup_keys r
   end.
 Definition same_set (got want : list (nat * nat * N)) : bool :=
-  Nat.eqb (length got) (length want) && nodup_keys got && forallb (fun x => existsb (triple_eqb x) want) got.
+  nodup_keys got && forallb (fun x => existsb (triple_eqb x) want) got && forallb (fun x => existsb (triple_eqb x) got) want.
 Fixpoint list_bool_eqb (a b : list bool) : bool :=
   match a, b with
   | [], [] => true
